@@ -56,6 +56,8 @@ PAIRS = [
     ("expratedecay", "expratedecay"),
 ]
 EXACT_PAIRS = {0, 1, 2, 3, 4, 5, 6}  # values are selected (or x + 0), never rounded
+SELECT_PAIRS = {0, 1, 2, 3, 4, 5}  # both functions only select among their inputs (no arithmetic)
+NONFIN = {"inf": float("inf"), "-inf": float("-inf"), "nan": float("nan")}
 ADJ = {
     "none": None,
     "half": lambda x: x * 0.5,
@@ -106,6 +108,16 @@ def run_interp(case):
     prev = np.array(_cyc(case["prev"], n), dtype=ND[dtype]).reshape(shape)
     nxt = np.array(_cyc(case["next"], n), dtype=ND[dtype]).reshape(shape)
     smp = np.array(_cyc(case["sample"], n), dtype=ND[dtype]).reshape(shape)
+    # non-finite bracket values (records hold inf / nan in never-written or initial slots) for the
+    # SELECTION-type pairs only; the sample stays finite.  Nothing is asserted about the arithmetic
+    # (linear / exponential) functions on such brackets.
+    nonfin = case.get("nonfinite") if pair_ix in SELECT_PAIRS else None
+    if nonfin:
+        for arr, key in ((prev, "prev"), (nxt, "next")):
+            flat = arr.reshape(-1)
+            for j, v in enumerate(_cyc(nonfin[key], n)):
+                if v is not None:
+                    flat[j] = NONFIN[v]
 
     specs = _cyc(case["ts"], n)
     if case["scalar_ts"]:
@@ -166,7 +178,8 @@ def run_interp(case):
         tol = 16 * eps * (np.abs(p64) + np.abs(s64) + np.abs(b_eff)) * (1 + dt / np.maximum(dt - t64, dt / AMP_MAX)) + 1e-300
     else:
         tol = 16 * eps * (1 + t64 / (tc * dt)) * np.abs(s64) + 1e-300
-    bad = (np.abs(g - s64) > tol) & decisive
+    with np.errstate(invalid="ignore"):
+        bad = ~(np.abs(g - s64) <= tol) & decisive  # a NaN result is a mismatch
     check(
         not bad.any(),
         f"roundtrip:{en}/{inn}",
@@ -175,7 +188,19 @@ def run_interp(case):
         info={"pair": f"{en}/{inn}"},
     )
 
+    # ---- selection-type extrapolations hand back their inputs unchanged (X(0) is the sample or
+    #      D(0), X(dt) the sample or D(dt)); in particular no NaN manufactured from inf * 0
+    if en in ("previous", "next", "neighbors", "nearest"):
+        for nm, xo, brk in (("X(0)", x0, p64), ("X(dt)", x1, n64)):
+            check(isinstance(xo, torch.Tensor), "extrap:type", lambda: f"extrap_{en} {nm}: {type(xo)}")
+            go = _np(torch.broadcast_to(xo, shape)).reshape(shape)
+            check(bool((_same(go, s64) | _same(go, brk)).all()), f"extrap:select:{en}",
+                  lambda: f"extrap_{en}(sample={s64.tolist()}, t_s={ts.tolist()}, prev={p64.tolist()}, next={n64.tolist()}, dt={dt}): "
+                          f"{nm} = {go.tolist()} is neither the sample nor the bracket value")
+
     # ---- linear interpolation between the brackets, equal to them at the ends
+    if nonfin:
+        return _interp_tail(case, F, tp, tn, tts, dt, shape, p64, n64, s64, t64, ts, decisive, en, inn, dtype, amb, True)
     with impl("interp_linear"):
         lin = F.interp_linear(tp, tn, tts, dt)
         lin0 = F.interp_linear(tp, tn, torch.zeros_like(tts), dt)
@@ -197,19 +222,31 @@ def run_interp(case):
     check(bool((np.abs(g1 - n64) <= btol).all()), "linear:end1",
           lambda: f"interp_linear at t_s=dt={dt}: {g1.tolist()} != next {n64.tolist()}")
 
+    return _interp_tail(case, F, tp, tn, tts, dt, shape, p64, n64, s64, t64, ts, decisive, en, inn, dtype, amb, False)
+
+
+def _same(a, b):
+    """element-wise equality that treats NaN as equal to NaN"""
+    with np.errstate(invalid="ignore"):
+        return (a == b) | (np.isnan(a) & np.isnan(b))
+
+
+def _interp_tail(case, F, tp, tn, tts, dt, shape, p64, n64, s64, t64, ts, decisive, en, inn, dtype, amb, nonfin):
     # ---- positional interpolations return one of the brackets
     for name in ("previous", "next", "nearest"):
         with impl("interp_" + name):
             r = getattr(F, "interp_" + name)(tp, tn, tts, dt)
         gr = _np(torch.broadcast_to(r, shape)).reshape(shape)
         check(
-            bool(((gr == p64) | (gr == n64)).all()),
+            bool((_same(gr, p64) | _same(gr, n64)).all()),
             f"bracket:{name}",
             lambda: f"interp_{name} returned {gr.tolist()}, brackets {p64.tolist()} / {n64.tolist()}",
         )
 
+    adj = case.get("adjust", "none")
     inside = (t64 > 0) & (t64 < dt) & decisive
-    distinct = (p64 != n64) & (s64 != p64) & (s64 != n64)
+    with np.errstate(invalid="ignore"):
+        distinct = ~_same(p64, n64) & (s64 != p64) & (s64 != n64)
     nt = bool((inside & distinct).any())
     cls = [f"pair={en}/{inn}", f"dtype={dtype}", f"rank={len(shape)}"]
     if (t64 == 0).any():
@@ -220,6 +257,12 @@ def run_interp(case):
         cls.append("nearest:exact-half")
     if adj != "none" and en.startswith("linear_"):
         cls.append("adjust")
+    if nonfin:
+        cls.append("nonfinite-bracket")
+        if np.isnan(p64).any() or np.isnan(n64).any():
+            cls.append("nan-bracket")
+        if np.isinf(p64).any() or np.isinf(n64).any():
+            cls.append("inf-bracket")
     return {"nt": nt, "cls": cls, "amb": amb}
 
 
@@ -234,8 +277,21 @@ _tsspec = st.one_of(
 )
 
 
+_nf = st.sampled_from([None, None, "inf", "-inf", "nan"])
+
+
 @st.composite
 def interp_case(draw, tier="quick"):
+    c = _interp_base(draw)
+    if c["pair"] in SELECT_PAIRS and draw(st.integers(0, 2)) == 0:
+        c["nonfinite"] = {"prev": draw(st.lists(_nf, min_size=1, max_size=4)),
+                          "next": draw(st.lists(_nf, min_size=1, max_size=4))}
+        if all(v is None for v in c["nonfinite"]["prev"] + c["nonfinite"]["next"]):
+            c["nonfinite"]["next"][0] = "nan"
+    return c
+
+
+def _interp_base(draw):
     return {
         "dtype": draw(st.sampled_from(["float32", "float32", "float64"])),
         "shape": draw(st.sampled_from([[], [1], [3], [2, 3], [3], [4, 2]])),
@@ -493,9 +549,18 @@ def _dist_cont(case):
         mtol, vtol = mrel * (abs(loc) + scale), 4 * mrel * (scale * scale) + 4 * mrel * abs(loc) * scale
     check(abs(gm - m1) <= mtol, f"{name}:mean", lambda: f"{what}: mean() = {gm!r}, first moment of pdf = {m1!r} (tol {mtol:.3g})")
     check(abs(gv - m2) <= vtol, f"{name}:variance", lambda: f"{what}: variance() = {gv!r}, central second moment of pdf = {m2!r} (tol {vtol:.3g})")
-    check(abs(gm - ref["mean"]) <= 256 * meps * (1 + abs(loc) + scale * scale) * abs(ref["mean"]) + 1e-300, f"{name}:mean",
+    # stated moments against the documented closed forms in float64: a few ulp of the RESULT times the
+    # conditioning of the formula in its parameters (the variance must keep its digits at small scale)
+    cm, cv = M.closed_moments(case["dist"], loc, scale)
+    check(abs(gm - cm) <= 8 * meps * (1 + abs(loc) + scale * scale) * abs(cm) + 1e-300, f"{name}:mean-closed",
+          lambda: f"{what}: mean() = {gm!r}, documented closed form in float64 {cm!r}")
+    check(abs(gv - cv) <= 8 * meps * (1 + 2 * abs(loc) + 2 * scale * scale) * abs(cv) + 1e-300, f"{name}:variance-closed",
+          lambda: f"{what}: variance() = {gv!r}, documented closed form in float64 {cv!r}")
+    # scipy's own lognormal variance loses digits at small scale (exp(s^2) - 1): second opinion only above 0.05
+    scipy_moments_ok = scale > 0.05
+    check((not scipy_moments_ok) or abs(gm - ref["mean"]) <= 256 * meps * (1 + abs(loc) + scale * scale) * abs(ref["mean"]) + 1e-300, f"{name}:mean",
           lambda: f"{what}: mean() = {gm!r}, scipy {ref['mean']!r}")
-    check(abs(gv - ref["var"]) <= 256 * meps * (1 + 2 * abs(loc) + 2 * scale * scale) * abs(ref["var"]) + 1e-300, f"{name}:variance",
+    check((not scipy_moments_ok) or abs(gv - ref["var"]) <= 256 * meps * (1 + 2 * abs(loc) + 2 * scale * scale) * abs(ref["var"]) + 1e-300, f"{name}:variance",
           lambda: f"{what}: variance() = {gv!r}, scipy {ref['var']!r}")
 
     # mean/variance parameterisation round trip
@@ -524,13 +589,19 @@ def _dist_cont(case):
     check(abs(rv - tv) <= 2 * pr * abs(tv) + 1e-37, f"{name}:params_mv:variance",
           lambda: f"{name}.params_mv(mean={tm!r}, variance={tv!r}) -> loc={float(_np(pl).reshape(-1)[0])!r} scale={float(_np(ps).reshape(-1)[0])!r} has variance {rv!r}")
     dense = int((ref["pdf"] * (x64 if logn else 1.0) * scale >= 1e-6).sum())
-    return {"nt": dense >= 100, "cls": [name.lower(), f"dtype={dtype}", f"form={case['form']}"]}
+    cls = [name.lower(), f"dtype={dtype}", f"form={case['form']}"]
+    if scale <= 1e-2:
+        cls.append(f"{name.lower()}:small-scale")
+    return {"nt": dense >= 100, "cls": cls}
 
 
 def run_dist(case):
     if case["dist"] == "poisson":
         return _dist_poisson(case)
     return _dist_cont(case)
+
+
+SMALL_SCALES = [1e-4, 3e-4, 1e-3, 3e-3, 1e-2]
 
 
 def _r4(v):
@@ -554,11 +625,17 @@ def dist_case(draw, tier="quick"):
     if dist == "normal":
         c["loc"] = draw(st.one_of(st.sampled_from([0.0, 1.0, -2.5, 10.0]), st.floats(-20.0, 20.0, allow_nan=False).map(_r4)))
         c["scale"] = draw(st.one_of(st.sampled_from([1.0, 0.5, 2.0, 0.1, 10.0]), st.floats(0.05, 10.0, allow_nan=False).map(_r4)))
+        if draw(st.integers(0, 4)) == 0:  # small-scale stratum
+            c["scale"] = draw(st.sampled_from(SMALL_SCALES))
+            c["loc"] = draw(st.sampled_from([0.0, 1.0, -2.0, 5.0, 10.0, c["loc"]]))
         c["tmean"] = draw(st.floats(-50.0, 50.0, allow_nan=False).map(_r4))
         c["cv2"] = draw(st.one_of(st.sampled_from([1.0, 0.25, 4.0]), st.floats(0.01, 100.0, allow_nan=False).map(_r4)))
     else:
         c["loc"] = draw(st.one_of(st.sampled_from([0.0, 1.0, -1.0, 2.0]), st.floats(-3.0, 4.0, allow_nan=False).map(_r4)))
         c["scale"] = draw(st.one_of(st.sampled_from([1.0, 0.5, 0.25, 0.1]), st.floats(0.05, 1.5, allow_nan=False).map(_r4)))
+        if draw(st.integers(0, 3)) == 0:  # small-scale stratum: the stated variance must not lose its digits
+            c["scale"] = draw(st.sampled_from(SMALL_SCALES))
+            c["loc"] = draw(st.sampled_from([0.0, 1.0, -2.0, 5.0, 10.0, c["loc"]]))
         c["tmean"] = draw(st.floats(0.05, 50.0, allow_nan=False).map(_r4))
         c["cv2"] = draw(st.one_of(st.sampled_from([1.0, 0.25, 4.0]), st.floats(0.02, 10.0, allow_nan=False).map(_r4)))
     return c
@@ -769,14 +846,17 @@ LEGS = [
         name="interp", run=run_interp, strategy=lambda tier: interp_case(tier),
         quick=1500, thorough=15000, quick_shards=4, thorough_shards=8, nt_floor=0.3,
         rule="one of the 11 matching extrap/interp pairs on generated brackets, sample and t_s in [0, dt] "
-             "(strata 0, dt, dt/2, k/8, k/3, 1/64, random; float32/float64; scalar or tensor t_s); non-trivial "
+             "(strata 0, dt, dt/2, k/8, k/3, 1/64, random; float32/float64; scalar or tensor t_s); for the six selection-type pairs "
+             "a third of the cases put +inf / -inf / NaN into bracket values (sample finite): exact round trip, outputs are one of "
+             "the inputs (NaN-aware), nothing asserted for linear/exponential functions there; non-trivial "
              "when >= 1 element has pairwise distinct prev/next/sample and 0 < t_s < dt outside the nearest band",
     ),
     Leg(
         name="dist", run=run_dist, strategy=lambda tier: dist_case(tier),
         quick=600, thorough=8000, quick_shards=4, thorough_shards=8, nt_floor=0.5,
         rule="Poisson (support 0..rate+12 sqrt(rate)+15) / Normal / LogNormal (4801-point grid over +-12 sd) "
-             "with palette and drawn parameters (Poisson incl. the degenerate rate 0, counted trivial), float32/float64, parameters as float / 0-dim / (1,) tensor; "
+             "with palette and drawn parameters (Poisson incl. the degenerate rate 0, counted trivial; Normal/LogNormal incl. a "
+             "small-scale stratum 1e-4..1e-2 with loc up to 10, stated moments vs the float64 closed forms at 8 ulp x conditioning), float32/float64, parameters as float / 0-dim / (1,) tensor; "
              "non-trivial when the density is >= 1e-6 on >= 2 (Poisson) / >= 100 (continuous) grid points",
     ),
     Leg(
@@ -800,6 +880,8 @@ ASSUMPTIONS = [
     "linear extrapolation is exercised with t_s >= dt/64 (forward) and t_s <= dt(1 - 1/64) (backward): the documented division is unbounded at the excluded end",
     "nearest pairs within 1e-5 of t_s = dt/2 are counted ambiguous unless t_s == dt/2 exactly with dyadic dt",
     "Poisson integer supports; rate >= 0 with rate == 0 (accepted by Poisson.validate: the degenerate distribution) as its own stratum judged by the identities defined there (pmf = [1,0,..], cdf = 1, mean = variance = 0, no NaN); Normal / LogNormal have only open parameter boundaries (validate rejects scale 0, non-finite values, LogNormal support 0); LogNormal scale <= 1.5 so that the 4801-point grid captures the second moment",
+    "non-finite bracket values are only fed to the selection-type functions (interp previous/next/nearest, extrap previous/next/neighbors/nearest); linear / exponential functions are judged on finite data only",
+    "stated mean/variance are compared with the documented closed forms evaluated in float64 (math.expm1); scipy's lognormal moments are consulted only for scale > 0.05 (they lose digits below)",
     "scipy.stats is trusted as the second opinion for pmf/pdf/cdf values; quadrature is a trapezoid rule in the Gaussian coordinate on the actual float abscissae",
     "Victor-Purpura: spike-time vectors are strictly increasing; cost = inf follows the function's documented warning (n + m, identity law excluded)",
 ]
